@@ -46,6 +46,8 @@ def run(ctx):
     ctx.rule("R08.y", "Dynamic set model: Dynamic.__set__ interpreted (instance / class route; a number, a generator, a callable reference resolving to a number or to a generator): generator state is "
                       "attached to the value that was stored when it is a callable, never to the reference itself (a bound method cannot carry it: the assignment would raise after the store "
                       "and the link)", floor=1)
+    ctx.rule("R08.p", "invalidation before consumers: every internal watcher that only invalidates an expression's cache (rx._invalidate_*) is registered with a precedence strictly lower than "
+                      "every internally installed consumer (the sync of references, depends(watch=True) callers), so that within one batch no consumer reads a cache whose invalidation is still queued", floor=2)
     ctx.rule("R08.d", "every reference is installed: in Parameter.__set__ the relink decision holds whenever _resolve_ref returned a reference (top-level disjunct `ref is not None`), "
                       "and the constructor records refs[name] = ref under exactly `ref is not None`", floor=2)
     ctx.rule("R08.e", "_sync_refs re-resolves exactly the links one of whose dependencies matches one of the delivered events by (owner identity, name) -- decided by abstract "
@@ -395,6 +397,8 @@ def run(ctx):
     from checks import link_model
     link_model.report(ctx, "C08", "R08.l")
     link_model.report_resolve(ctx, "R08.v")
+    from checks.shared import invalidation_before_consumers
+    invalidation_before_consumers(ctx, "R08.p")
     from checks.shared import dynamic_set_model
     dynamic_set_model(ctx, "R08.y")
     from checks import trigger_model
